@@ -1,8 +1,8 @@
 (* Single entry point of the extracted model runner: name + argument -> observation. *)
 From Coq Require Import List NArith ZArith Bool.
 From Coq Require Import QArith.
-From NV Require Import Prelude.Str Prelude.Res Prelude.Sx Model.Url Model.Redirect Model.Bucket Model.Ip Model.Titan Model.ServerProto Model.Proxy Model.ClientProto Model.Tofu Model.Session.
-From NV Require Spec.C19 Spec.C16 Spec.C10 Spec.C09 Spec.ServerTrace Spec.C01 Spec.C04 Spec.C07 Spec.C15 Spec.C08 Spec.C17 Spec.C13 Spec.C03 Spec.C12 Spec.C11 Spec.C18.
+From NV Require Import Prelude.Str Prelude.Res Prelude.Sx Model.Url Model.Redirect Model.Bucket Model.Ip Model.Titan Model.ServerProto Model.Proxy Model.ClientProto Model.Tofu Model.Session Model.Fs Model.Static Model.CertAuth.
+From NV Require Spec.C19 Spec.C16 Spec.C10 Spec.C09 Spec.ServerTrace Spec.C01 Spec.C04 Spec.C07 Spec.C15 Spec.C08 Spec.C17 Spec.C13 Spec.C03 Spec.C12 Spec.C11 Spec.C18 Spec.C02 Spec.C14 Spec.C05.
 Import ListNotations.
 Open Scope N_scope.
 
@@ -115,10 +115,10 @@ Definition read_hres (x : sx) : hres :=
 Definition read_ostr (x : sx) : option str := match as_list x with [A s] => Some s | _ => None end.
 Definition read_task_outcome (x : sx) : ServerProto.outcome :=
   let tag := as_str (nth_sx 0 x) in
-  if eqb tag (lit "resp") then OResp (read_resp (nth_sx 1 x))
-  else if eqb tag (lit "raise") then ORaise (as_str (nth_sx 1 x))
-  else if eqb tag (lit "mw") then OMw (as_bool (nth_sx 1 x)) (read_ostr (nth_sx 2 x))
-  else OMalformed.
+  if eqb tag (lit "resp") then ServerProto.OResp (read_resp (nth_sx 1 x))
+  else if eqb tag (lit "raise") then ServerProto.ORaise (as_str (nth_sx 1 x))
+  else if eqb tag (lit "mw") then ServerProto.OMw (as_bool (nth_sx 1 x)) (read_ostr (nth_sx 2 x))
+  else ServerProto.OMalformed.
 Definition read_sevent (x : sx) : ServerProto.event :=
   let tag := as_str (nth_sx 0 x) in
   if eqb tag (lit "read") then ERead (map as_str (as_list (nth_sx 1 x)))
@@ -242,6 +242,41 @@ Definition read_upstream (x : sx) : upstream :=
   if eqb t (lit "stream") then UStream (as_str (nth_sx 1 x)) (read_ostr (nth_sx 2 x))
   else if eqb t (lit "connfail") then UConnectFail else UTimeout.
 
+(* ---- filesystem handlers ---- *)
+Definition read_path (x : sx) : path := map as_str (as_list x).
+Definition show_path (p : path) : sx := L (map A p).
+Definition read_node (x : sx) : node :=
+  let t := as_str (nth_sx 0 x) in
+  if eqb t (lit "f") then File (as_str (nth_sx 1 x)) else if eqb t (lit "l") then Link (as_str (nth_sx 1 x)) else Dir.
+Definition show_node (n : node) : sx :=
+  match n with File c => L [sT "f"; A c] | Dir => L [sT "d"] | Link t => L [sT "l"; A t] end.
+Definition read_fs (x : sx) : fs := map (fun e => (read_path (nth_sx 0 e), read_node (nth_sx 1 e))) (as_list x).
+Definition show_fs (f : fs) : sx := L (map (fun e => L [show_path (fst e); show_node (snd e)]) f).
+Definition show_sout (f : fs) (o : sout) : sx :=
+  match o with
+  | OServe p m t => L [sT "serve"; show_path p; A m; A t]
+  | OListing d => L [sT "listing"; show_path d; sNat (length (children f d))]
+  | OStatus st m => L [sT "status"; sZ st; A m]
+  | ORaise k => L [sT "raise"; A k]
+  | OOom => L [sT "oom"]
+  end.
+Definition read_scfg (x : sx) : scfg :=
+  {| s_root := read_path (nth_sx 0 x); s_indices := map as_str (as_list (nth_sx 1 x));
+     s_listing := as_bool (nth_sx 2 x); s_max := as_N (nth_sx 3 x) |}.
+Definition read_ucfg (x : sx) : ucfg :=
+  {| u_root := read_path (nth_sx 0 x); u_max := as_N (nth_sx 1 x);
+     u_types := match as_opt (nth_sx 2 x) with Some l => Some (map as_str (as_list l)) | None => None end;
+     u_tokens := map as_str (as_list (nth_sx 3 x)); u_delete := as_bool (nth_sx 4 x) |}.
+Definition read_ureq (x : sx) : ureq :=
+  {| q_path := as_str (nth_sx 0 x); q_size := as_N (nth_sx 1 x); q_mime := as_str (nth_sx 2 x);
+     q_token := read_ostr (nth_sx 3 x); q_content := as_str (nth_sx 4 x) |}.
+Definition read_rule (x : sx) : rule :=
+  {| ru_prefix := as_str (nth_sx 0 x); ru_require := as_bool (nth_sx 1 x);
+     ru_allowed := match as_opt (nth_sx 2 x) with Some l => Some (map as_str (as_list l)) | None => None end |}.
+Definition show_verdict (v : CertAuth.verdict) : sx :=
+  match v with Allow => sT "allow" | Deny60 => sT "60" | Deny61 => sT "61" end.
+Definition read_opath (x : sx) : option path := match as_list x with [p] => Some (read_path p) | _ => None end.
+
 Definition dispatch (name : str) (arg : sx) : sx :=
   if eqb name (lit "parse_url") then
     show_res show_parsed (parse_url (ip6_of_table (nth_sx 1 arg)) (as_str (nth_sx 0 arg)))
@@ -362,5 +397,30 @@ Definition dispatch (name : str) (arg : sx) : sx :=
   else if eqb name (lit "relay") then A (relay (as_N (nth_sx 0 arg)) (read_upstream (nth_sx 1 arg)))
   else if eqb name (lit "C18.ok") then
     sB (Spec.C18.ok (as_N (nth_sx 0 arg)) (read_upstream (nth_sx 1 arg)) (as_str (nth_sx 2 arg)) (as_bool (nth_sx 3 arg)))
+  else if eqb name (lit "static") then
+    (* arg: cfg fs url_path *)
+    let f := read_fs (nth_sx 1 arg) in show_sout f (handle (read_scfg (nth_sx 0 arg)) f (as_str (nth_sx 2 arg)))
+  else if eqb name (lit "C02.ok") then
+    (* arg: root status served(opt path) leaks *)
+    sB (Spec.C02.ok (read_path (nth_sx 0 arg)) (as_Z (nth_sx 1 arg)) (read_opath (nth_sx 2 arg)) (as_bool (nth_sx 3 arg)))
+  else if eqb name (lit "upload") then
+    (* arg: cfg fs req fault -> response + new fs *)
+    let r := handle_upload (read_ucfg (nth_sx 0 arg)) (read_fs (nth_sx 1 arg)) (read_ureq (nth_sx 2 arg))
+                           (match as_list (nth_sx 3 arg) with [k] => Some (as_N k) | _ => None end) in
+    L [match fst r with UResp st m => L [sT "resp"; sZ st; A m] | URaise k => L [sT "raise"; A k] | UOom => L [sT "oom"] end;
+       show_fs (snd r)]
+  else if eqb name (lit "C14.ok") then
+    (* arg: cfg req status target(opt path) before after *)
+    sB (Spec.C14.ok (read_ucfg (nth_sx 0 arg)) (read_ureq (nth_sx 1 arg)) (as_Z (nth_sx 2 arg)) (read_opath (nth_sx 3 arg))
+                    (read_fs (nth_sx 4 arg)) (read_fs (nth_sx 5 arg)))
+  else if eqb name (lit "certauth") then
+    (* arg: rules url_path fp *)
+    match decide (map read_rule (as_list (nth_sx 0 arg))) (as_str (nth_sx 1 arg)) (read_ostr (nth_sx 2 arg)) with
+    | Ok v => show_verdict v
+    | _ => L [sT "oom"]
+    end
+  else if eqb name (lit "C05.ok") then
+    (* arg: rules fp status delivered_location(opt) *)
+    sB (Spec.C05.ok (map read_rule (as_list (nth_sx 0 arg))) (read_ostr (nth_sx 1 arg)) (as_Z (nth_sx 2 arg)) (read_ostr (nth_sx 3 arg)))
   else L [sT "unknown-model"; A name].
 Close Scope N_scope.
